@@ -220,11 +220,11 @@ def gen_case(rng, cid):
                 kind = "sloadres " if rng.random() < 0.6 else "loadres "
                 last = getattr(sim, "last_s", None)
                 if last and rng.random() < 0.4:
-                    # a fixed slice inside the region of known finding loadres-raw-slice-alias: the same resource reloaded through the
-                    # reused slice with the same number of rules (the generator's own bookkeeping follows the claim, not the code)
+                    # regression slice for the fixed finding loadres-raw-slice-alias: the same resource reloaded through the reused
+                    # slice with the same number of rules
                     r, kind = last[0], "sloadres "
                     ths = [rng.choice(THR_SMALL) for _ in range(last[1])]
-                    cls.append("alias-region")
+                    cls.append("slice-reuse-same-length")
                 if kind == "sloadres " and ths:
                     sim.last_s = (r, len(ths))
                 ops.append(kind + r + "".join(f" {t}" for t in ths))
